@@ -153,8 +153,11 @@ def build (kvs : List KV) : Option Node := buildNode (2 * kvSize kvs + 2) [] kvs
 /-! ### Get (trie.go) -/
 
 mutual
-  /-- `trie.Get` from a node on; `key` = the part of the key not yet consumed -/
-  def getNode : Node → Key → Option Nat
+  /-- `trie.Get` from a node on; `key` = the part of the key not yet consumed.
+  `eon` = the source variant (regenerated fact `getChecksEndOfNode`): `false` = the terminator test
+  is `GetLabel(pos) == labelTerminator && !hasChild(pos)`; `true` = it also has `!isEndOfNode(pos)`
+  (fixes/C20-get-terminator-not-end-of-node.patch). -/
+  def getNode (eon : Bool) : Node → Key → Option Nat
     | .mk pfx es, key =>
       match stripPrefix pfx key with
       | none => none                                    -- CheckPrefix failed
@@ -162,28 +165,29 @@ mutual
         -- key exhausted: `labelVec.GetLabel(pos) == labelTerminator && !hasChildVec.IsSet(pos)`
         -- then CheckSuffix with depth >= len(key): the suffix must be empty
         match es with
-        | .leaf l suf v _ => if l == labelTerminator && suf.isEmpty then some v else none
+        | .leaf l suf v r =>
+          if l == labelTerminator && suf.isEmpty && (!eon || !r.isNil) then some v else none
         | _ => none
       | some (c :: rest) =>
         -- labelVector.Search: `if size > 1 && labels[start] == labelTerminator { start++ }`
         match es with
         | .leaf l suf v r =>
-          if l == labelTerminator && !r.isNil then getEntries r c rest
+          if l == labelTerminator && !r.isNil then getEntries eon r c rest
           else if l == c then (if suf == rest then some v else none)
-          else getEntries r c rest
+          else getEntries eon r c rest
         | .child l n r =>
-          if l == labelTerminator && !r.isNil then getEntries r c rest
-          else if l == c then getNode n rest
-          else getEntries r c rest
+          if l == labelTerminator && !r.isNil then getEntries eon r c rest
+          else if l == c then getNode eon n rest
+          else getEntries eon r c rest
         | .nil => none
   /-- `bytes.IndexByte` over the labels of the node, fused with what `Get` does at the hit -/
-  def getEntries : Entries → Nat → Key → Option Nat
+  def getEntries (eon : Bool) : Entries → Nat → Key → Option Nat
     | .nil, _, _ => none
     | .leaf l suf v r, c, rest =>
       if l == c then (if suf == rest then some v else none)        -- CheckSuffix
-      else getEntries r c rest
+      else getEntries eon r c rest
     | .child l n r, c, rest =>
-      if l == c then getNode n rest else getEntries r c rest
+      if l == c then getNode eon n rest else getEntries eon r c rest
 end
 
 /-! ### ordered iteration (iterator.go SeekToFirst / Next / Key / Value) -/
@@ -286,16 +290,20 @@ end
 Next()` enumerate afterwards). -/
 def seek (t : Node) (key : Key) : Bool × List KV := seekNode [] t key
 
-/-- `Seek` followed by the repair proposed in fixes/C20-seek-lower-bound.patch: step once more
-when the landing key is smaller than the probe. -/
+/-- `Seek` followed by the repair of fixes/C20-seek-lower-bound.patch:
+`if it.valid && bytes.Compare(it.Key(), key) < 0 { it.Next() }`. -/
 def seekLB (t : Node) (key : Key) : List KV :=
   match (seek t key).2 with
   | [] => []
   | kv :: r => if keyLt kv.1 key then r else kv :: r
 
-/-- `NewPrefixIterator(prefix)` and the `Valid()/Key()/Value()/Next()` loop -/
-def prefixIter (t : Node) (p : Key) : List KV :=
-  if p.isEmpty then (seek t p).2 else (seek t p).2.takeWhile (fun kv => hasPrefix p kv.1)
+/-- `Iterator.Seek` of the source variant given by the regenerated fact `seekStepsToLowerBound` -/
+def seekCur (step : Bool) (t : Node) (key : Key) : Bool × List KV :=
+  if step then ((seek t key).1, seekLB t key) else seek t key
+
+/-- `NewPrefixIterator(prefix)` (which calls `Seek`) and the `Valid()/Key()/Value()/Next()` loop -/
+def prefixIter (step : Bool) (t : Node) (p : Key) : List KV :=
+  if p.isEmpty then (seekCur step t p).2 else (seekCur step t p).2.takeWhile (fun kv => hasPrefix p kv.1)
 
 /-! ### the sorted-map specification -/
 
